@@ -136,7 +136,9 @@ def phase_checks(maxn):
             a = l.split("\t")
             done.add((a[0], a[1]))
     random.Random(1).shuffle(surv)
-    todo = [s for s in surv if (s[0], s[1]) not in done][:maxn]
+    # removed informational prints cannot touch a property (log texts are not pinned by any of them): not worth a run
+    neutral = re.compile(r"statement removed: (Log\.(Info|Infof|Warn|Warnf|Debug|Debugf)|rscp\.Log\.|fmt\.Fprint)")
+    todo = [s for s in surv if (s[0], s[1]) not in done and not neutral.search(s[4])][:maxn]
     print("survivors: %d, to check now: %d" % (len(surv), len(todo)))
     rc, out = sh(["git", "-C", "/repo", "status", "--porcelain"])
     if out.strip():
